@@ -161,7 +161,24 @@ func body(s *simrt.Sim, tier string) {
 	// ctlLock serialises the harness's own bookkeeping of Start/Stop (the calls themselves may interleave with everything else)
 	checkEntries := func() {
 		inv, invStamp := now(), s.Stamp()
-		snap := c.Entries()
+		var snap []cron.Entry
+		if s.Choose(3, "entryOrEntries") == 0 {
+			// Entry(id) of one added entry: the same promises hold for the single-entry snapshot
+			var cand []*entry
+			for _, x := range entries {
+				if x.added {
+					cand = append(cand, x)
+				}
+			}
+			if len(cand) == 0 {
+				return
+			}
+			if se := c.Entry(cand[s.Choose(len(cand), "whichEntry")].id); se.Valid() {
+				snap = []cron.Entry{se}
+			}
+		} else {
+			snap = c.Entries()
+		}
 		ret := now()
 		for _, se := range snap {
 			var e *entry
